@@ -711,7 +711,9 @@ def listener_session(seed):
     cid = 100
     for k in range(nclients):
         c = k + 1
-        addr = rng.choice(["10.0.0.%d:%d" % (k, 1000 + k), "a%d" % k, ("b%d" % k) * 20, ("c%d" % k).ljust(63, "c"), ("d%d" % k).ljust(61, "d")])
+        addr = rng.choice(["10.0.0.%d:%d" % (k, 1000 + k), "a%d" % k, ("b%d" % k) * 20, ("c%d" % k).ljust(63, "c"), ("d%d" % k).ljust(61, "d"),
+                           ("e%d" % k).ljust(rng.randint(2, 63), "e"), ("f%d" % k).ljust(rng.randint(2, 63), "f"),
+                           ("[fe80:0000:0000:0000:0202:b3ff:fe1e:832%d%%eth0]:6553%d" % (k, k))[:rng.choice([48, 47, 49, 48])]])
         s.op("conn %d" % c)
         s.op("connect %d" % c)
         if rng.random() < 0.6:
@@ -938,9 +940,12 @@ def unit_session(seed, n=400):
         elif r < 0.85:
             k = rng.randint(1, 32)
             ops.append("bbwrapped %d %d %d" % (rng.randint(0, (1 << 32) - 1), 1 << k if k < 32 else (1 << 32) - 1, rng.randint(0, 63)))
-        else:
+        elif r < 0.93:
             v = rng.choice([0, 1, 127, 128, 16383, 16384, 2097151, 2097152, 268435455, 268435456, 4294967295, rng.randint(0, 4294967295)])
             ops.append("bbpacked %d %d" % (v, rng.randint(0, 63)))
+        else:
+            # a run of bits of any length at any bit offset (the byte-level copy routine with its lead-in / lead-out masks)
+            ops.append("bbbits %d %d %d" % (rng.choice([0, 1, 7, 8, 9, 15, 16, 17, 27, 63, 64, 65, rng.randint(0, 2048)]), rng.randint(0, 63), rng.randint(1, 1 << 30)))
     return ops
 
 
@@ -1283,4 +1288,88 @@ def inject_session(seed):
     s.op("closed 2")
     s.op("nodes")
     s.op("chans 2")
+    return s.ops
+
+
+def agreed_session(seed):
+    """C05 (the state a completed handshake leaves behind): two endpoints initialised with mirrored sequence numbers — every special value,
+    0 and the wrap included — each sends before it has received anything; the first packet in each direction must be accepted and
+    reliable data must flow"""
+    rng = random.Random(seed)
+    s = Session(rng)
+    s.op("reset")
+    magic = rng.choice([(0, 0), (0, 0), (8, 0xA5), (32, 0xDEADBEEF)])
+    if magic[0]:
+        s.op("cfg magic %d %d" % magic)
+    s.op("conn 1")
+    s.op("conn 2")
+    special = [0, 0, 1, 2, 3, 16383, 16382, 8191, 8192, 8193, 1023, 1024]
+    a_out = rng.choice(special + [rng.randint(0, 16383)])
+    b_out = rng.choice(special + [rng.randint(0, 16383)])
+    s.op("seqinit 1 %d %d" % (b_out, a_out))
+    s.op("seqinit 2 %d %d" % (a_out, b_out))
+    s.note("peers 1 2")
+    s.note("agreed")
+    first = rng.choice([1, 2])
+    for side in (first, 3 - first):
+        for k in range(rng.randint(1, 3)):
+            s.op("send %d 1 %d 0 1 %d %d" % (side, 9 if k == 0 else 8, payload_bits(rng, small=True), s.next_pseed()))
+        s.op("tick 250000000")
+        s.op("flush %d" % side)
+    s.op("dla 2 1")
+    s.op("dla 1 2")
+    for _ in range(rng.randint(2, 6)):
+        side = rng.choice([1, 2])
+        s.op("send %d 1 8 0 1 %d %d" % (side, payload_bits(rng, small=True), s.next_pseed()))
+        s.op("tick 250000000")
+        s.op("flush %d" % side)
+        s.op("dla %d %d" % (3 - side, side))
+    s.note("drain")
+    drain(s, 1, 2, rounds=6)
+    s.note("drained")
+    s.op("nodes")
+    return s.ops
+
+
+def refresh_session(seed):
+    """C02: one end queues a bunch without flushing (its header placeholder is written), then accepts 30-70 packets, then flushes — the
+    refresh of the placeholder is refused or not, the packet leaves, is acknowledged, and the following headers must still carry a
+    verdict for every packet accepted (no false NAK on a fault-free link)"""
+    rng = random.Random(seed)
+    s = Session(rng)
+    s.op("reset")
+    s.op("conn 1")
+    s.op("conn 2")
+    a_out, b_out = seq_choice(rng), seq_choice(rng)
+    s.op("seqinit 1 %d %d" % (b_out, a_out))
+    s.op("seqinit 2 %d %d" % (a_out, b_out))
+    s.note("peers 1 2")
+    s.op("send 1 1 9 0 1 8 %d" % s.next_pseed())
+    s.op("send 2 1 9 0 1 8 %d" % s.next_pseed())
+    drain(s, 1, 2, rounds=2)
+    for rnd in range(rng.randint(1, 3)):
+        s.op("send 2 1 %d 0 1 %d %d" % (rng.choice([8, 0]), payload_bits(rng, small=True), s.next_pseed()))     # waits in 2's send buffer
+        for _ in range(rng.choice([10, 31, 32, 33, 40, 64, 65, 70])):
+            if rng.random() < 0.4:
+                s.op("send 1 1 %d 0 1 %d %d" % (rng.choice([8, 0]), payload_bits(rng, small=True), s.next_pseed()))
+            s.op("tick 200000000")
+            s.op("flush 1")
+            s.op("dln 2 1")
+        s.op("flush 2")
+        s.op("dla 1 2")
+        s.op("tick 200000000")
+        s.op("flush 1")
+        s.op("dla 2 1")
+        for _ in range(rng.randint(2, 5)):
+            s.op("tick 200000000")
+            if rng.random() < 0.5:
+                s.op("send 2 1 8 0 1 8 %d" % s.next_pseed())
+            s.op("flush 2")
+            s.op("dla 1 2")
+            s.op("flush 1")
+            s.op("dla 2 1")
+    s.note("drain")
+    drain(s, 1, 2, rounds=6)
+    s.note("drained")
+    s.op("nodes")
     return s.ops
